@@ -456,6 +456,8 @@ func ruleC13(c *Ctx) {
 	c.rule("C13-R1", "placement: each Sign* rebuilds the children of a copy as [Child[0], signature, Child[1:]...] (or InsertChildAt(1, sig)) with ConstructSignature(el, enveloped=true) from sp.SigningContext(); the three Sign* bodies agree; the builders create saml:Issuer first (C15-R4)")
 	c.rule("C13-R2", "context configuration: on every creating path of SigningContext the algorithm is applied with SetSignatureMethod(sp.SignAuthnRequestsAlgorithm) and, when configured, the canonicalizer is stored, on the new context and before the write lock is released; the embedded certificate comes from the same key source as the signer")
 	c.rule("C13-R3", "single door: receivers of ConstructSignature / SignString / SignEnveloped are sp.SigningContext() results; signing contexts are constructed only inside SigningContext (positive control)")
+	c.rule("C13-R6", "configuration setters write exactly their own override field (shared setterContract)")
+	setterContract(c, "C13-R6")
 	c.rule("C13-R4", "decision-table agreement, role signing: key that signs vs certificate reported vs signing KeyDescriptor of both metadata functions, over all 12 valid key configurations")
 	signPlacement(c, "C13-R1")
 	issuerFirst(c, "C13-R1")
